@@ -34,7 +34,8 @@ class Effects:
 
 
 class Purity:
-    def __init__(self, repo: Repo, accept_io: Optional[Set[str]] = None):
+    def __init__(self, repo: Repo, accept_io: Optional[Set[str]] = None, follow_dynamic: bool = True):
+        self.follow_dynamic = follow_dynamic
         self.repo = repo
         self.cache: Dict[str, Effects] = {}
         self.active: Set[str] = set()
@@ -178,8 +179,9 @@ class Purity:
             if meth in BUILTIN_PURE_METHODS and len(cands) <= 0:
                 return
             eff.dynamic.append(f"{fi.where}: {'.'.join(cn)} -> {[c.where for c in cands][:3]}")
-            for c in cands:
-                self._merge(fi, node, eff, c)
+            if self.follow_dynamic:
+                for c in cands:
+                    self._merge(fi, node, eff, c)
             return
         # unresolved: builtin container / tuple methods on locals are pure reads
         if len(cn) >= 2 and cn[-1] in BUILTIN_PURE_METHODS:
